@@ -7,7 +7,9 @@ from simdag.gen.expr import (Bin, Call, Cmp, Const, IfX, Logic, Not, Pow, Sub, V
                              expr_vars, has_call, render, text)
 
 TEMP_POOL = ["x", "y", "z", "w", "u", "v", "temp", "temp_0", "temp_1", "local_x",
-             "cond", "self", "numpy", "t", "dt", "global_state_y", "y0", "X", "localx"]
+             "cond", "self", "numpy", "t", "dt", "global_state_y", "y0", "X", "localx",
+             # names that only exist as objects (not parseable): punctuation twins, sanitising collisions
+             "y^", "y*", "y_", "a.b", "a_b", "x-1", "cond_"]
 ARR_POOL = ["a", "b", "c", "arr", "vec"]
 COUNTERS = ["i", "j", "k"]
 BND_POOL = ["n", "m", "nn"]
@@ -881,19 +883,24 @@ def _apply_one(cb, op, ap, phase_name):
         if k == "assign":
             _, tgt, sub, e, loops, mode = op
             name = ap.nm(tgt)
-            if mode == "s" and (sub is None or sub.stringable()):
+            from simdag.gen.expr import parseable
+            if mode == "s" and parseable(name) and (sub is None or sub.stringable()):
                 lhs = name if sub is None else "%s[%s]" % (name, sub.s(ap.nm))
             else:
                 lhs = Variable(name) if sub is None else Subscript(Variable(name), sub.pym(ap.nm))
             lp = [(ap.nm(c), _rend(lo, ap, mode), _rend(hi, ap, mode)) for c, lo, hi in loops]
+            rhs = _rend(e, ap, mode)
+            if isinstance(lhs, str) != isinstance(rhs, str) and isinstance(lhs, str):
+                lhs = Variable(name) if sub is None else Subscript(Variable(name), sub.pym(ap.nm))
             if loops:
-                cb.assign(lhs, _rend(e, ap, mode), loops=lp)
+                cb.assign(lhs, rhs, loops=lp)
             else:
-                cb(lhs, _rend(e, ap, mode))
+                cb(lhs, rhs)
         elif k == "call":
             _, asg, e, mode = op
             names = tuple(ap.nm(a) for a in asg)
-            if mode == "s":
+            from simdag.gen.expr import parseable
+            if mode == "s" and all(parseable(n) for n in names):
                 lhs = names if len(names) != 1 else names[0]
             else:
                 lhs = tuple(Variable(n) for n in names) if len(names) != 1 else Variable(names[0])
